@@ -49,7 +49,11 @@ Visible(out, eng) == IF eng = "pure" THEN SelectSeq(out, LAMBDA e : e.k = "rec")
 
 ImplMatch(pre, step, post, out, eng) ==
   LET r == ImplStep(pre, step, eng)
-  IN /\ r.config = post.config
+  IN \* non-termination is cut off at the same event count on both sides; only the verdict compares
+     IF ErrHead(r.err) = <<"Diverged">> \/ ErrHead(post.err) = <<"Diverged">>
+     THEN ErrHead(r.err) = ErrHead(post.err)
+     ELSE
+     /\ r.config = post.config
      /\ r.status = post.status
      /\ r.ctx = post.ctx
      /\ r.output = post.output
